@@ -14,6 +14,7 @@ import (
 	"sort"
 	"strings"
 	"sync"
+	"sync/atomic"
 	"time"
 
 	. "verifharness/lib"
@@ -617,19 +618,19 @@ func exhaustiveSmall(c *Ctx, im *Impl, cf *CaseFile) {
 
 // concurrentDelivery: sessions handle their messages in parallel (one runProtocol goroutine per
 // connection), so the same update can reach handleRoutingUpdate from several links at the same moment.
-// Per round 2-4 goroutines, released together, deliver ONE update (an ordinary fresh update, a
+// Per round 2-8 goroutines, released together, deliver ONE update (an ordinary fresh update, a
 // suspected-duplicate notice about a third node - which only the seen-ID filter stops -, or an ID the
 // node has already seen) each from its own connection.  The connection "tail" delivers nothing, so
 // every thread that gets through the filter relays the update to it: the number of copies on "tail" is
 // the number of threads that processed the update.  Oracle (property text): relayed at most once.
 // Model: Model/FloodConc.v conc_check (0 if seen before, else exactly 1).
 func concurrentDelivery(c *Ctx, im *Impl, cf *CaseFile) {
-	rounds := 400
+	rounds := 3000
 	if c.Thorough() {
-		rounds = 6000
+		rounds = 30000
 	}
 	r := NewRng(c.Seed ^ 0xc06c06)
-	conns := []string{"k0", "k1", "k2", "k3", "tail"}
+	conns := []string{"k0", "k1", "k2", "k3", "k4", "k5", "k6", "k7", "tail"}
 	w := newWorld(conns)
 	defer w.stop()
 	// the third node the notices talk about must be known with the epoch they name
@@ -638,8 +639,8 @@ func concurrentDelivery(c *Ctx, im *Impl, cf *CaseFile) {
 	w.observe()
 	bad := 0
 	for round := 0; round < rounds; round++ {
-		nt := 2 + r.Intn(3)
-		kind := r.Intn(3)
+		nt := 2 + r.Intn(7)
+		kind := []int{1, 1, 1, 0, 2}[r.Intn(5)] // mostly notices: nothing but the ID filter stops their copies
 		id := fmt.Sprintf("conc-%d", round)
 		u := netceptor.VerifRoutingUpdate{NodeID: fmt.Sprintf("o%d", round%7), UpdateID: id, UpdateEpoch: 500, UpdateSequence: uint64(round + 1),
 			Connections: map[string]float64{"k0": 1, "x": 2}}
@@ -651,24 +652,30 @@ func concurrentDelivery(c *Ctx, im *Impl, cf *CaseFile) {
 		case 2: // an ID seen before (delivered once, sequentially, first)
 			seen = true
 			first := u
-			first.ForwardingNode = "k3"
-			w.n.VerifHandleRoutingUpdate(first, "k3")
+			first.ForwardingNode = "k7"
+			w.n.VerifHandleRoutingUpdate(first, "k7")
 			w.observe()
 			u.UpdateSequence += 1000000 // a later update re-using the ID: only the ID filter can stop it
 		}
-		var start, done sync.WaitGroup
-		start.Add(1)
+		var done sync.WaitGroup
+		var ready, release int32
 		for t := 0; t < nt; t++ {
 			done.Add(1)
 			ut := u
 			ut.ForwardingNode = conns[t]
 			go func(ut netceptor.VerifRoutingUpdate, from string) {
 				defer done.Done()
-				start.Wait()
+				atomic.AddInt32(&ready, 1)
+				for atomic.LoadInt32(&release) == 0 { // spin: all threads enter the handler within microseconds
+					runtime.Gosched()
+				}
 				w.n.VerifHandleRoutingUpdate(ut, from)
 			}(ut, conns[t])
 		}
-		start.Done()
+		for atomic.LoadInt32(&ready) < int32(nt) {
+			runtime.Gosched()
+		}
+		atomic.StoreInt32(&release, 1)
 		done.Wait()
 		o := w.observe()
 		perConn := map[string]int{}
